@@ -523,8 +523,8 @@ MANIFEST = {
     "text": "Exploration: complete simulated races; every request carries a unique id into its metrics records. An offline checker establishes exactly-once "
     "(one latency/service_time/processing_time record per executed request with the right task, operation, sample type and client id; one service_time per dependent "
     "sub-request) and conservation at every stage of the pipeline (sampler -> UpdateSamples -> driver -> post-processing -> hand-over -> race control), under "
-    "seeded message interleavings and line-level preemption between worker actor and executor in both directions (executor code inside an actor handler, the actor's wake-up inside Sampler.add). "
-    "The client id of a record is compared with the id rally stored on the HTTP node the request travelled through; the capacity of every worker's sample queue, observed at the queue, must be the configured sample.queue.size (default 2^20).",
+    "seeded message interleavings and line-level preemption between worker actor and executor in both directions (executor code inside an actor handler, the actor's wake-up inside Sampler.add; the executor between two statements of Sampler.samples). "
+    "The client id of a record is compared with the id rally stored on the HTTP node the request travelled through; the capacity of every worker's sample queue, observed at the queue, must be the configured sample.queue.size (default 2^20). A fifth of the races give tasks, operations or runner results a meta key named client_id.",
     "note": "Same actor/ES model as C01; preemption points are statement boundaries of three Worker methods, of Sampler.samples (actor side) and of Sampler.add (executor side).",
     "technique": "runtime monitor: unique-id exactly-once + stage conservation check over the recorded sample pipeline of simulated races (incl. injected line-level preemption)",
     "engines": ["vclock", "simactor", "simes", "race"],
